@@ -275,6 +275,26 @@ def marker_rows_in_final_transaction(rule, repo, nonempty_ok=None):
             if not _commits_between(mod, fn, n, subs[-1], commits):
                 rule.good(f"{mod.rel}:{cq}:subtree-marker", "atomic writer")
                 continue
+            # a row added inside a loop that also contains a commit point is committed by the next iteration
+            in_loop = []
+            for c in subs:
+                lp = mod.parent.get(c)
+                while lp is not None and lp is not fn and not isinstance(lp, (ast.For, ast.While)):
+                    lp = mod.parent.get(lp)
+                if isinstance(lp, (ast.For, ast.While)):
+                    inner = expr_commits(lp, commits)
+                    if inner:
+                        in_loop.append((c, inner))
+            if in_loop:
+                rule.violation(
+                    f"{mod.rel}:{cq}:subtree-marker",
+                    f"the CallSubtreeTask rows are added in a loop (line {in_loop[0][0].lineno}) whose body also reaches {', '.join(sorted(set(in_loop[0][1])))}: each commit makes the rows added so far durable, so an "
+                    "interrupted or retried recording leaves a call node with a non-empty but partial subtree set, which passes _get_call_node's `recorded set is non-empty` guard and is replayed by ultimate "
+                    "reduction even after a task whose row is missing was edited",
+                    mod.rel,
+                    in_loop[0][0].lineno,
+                )
+                continue
             early = []
             for c in subs:
                 later = [x for x in _commits_after(mod, fn, c, commits)]
